@@ -252,7 +252,13 @@ func buildZip(members []rawMember, deflate bool) []byte {
 
 func renderFeed(m *feedModel, p presentation) []byte {
 	var members []rawMember
+	optional := map[string]bool{"transfers.txt": true, "calendar_dates.txt": true, "shapes.txt": true, "frequencies.txt": true}
 	for _, t := range m.Tables {
+		if p.ExtraFile && optional[t.File] && len(t.Rows) == 0 {
+			// an optional table without rows is left out of the archive altogether: the members of the
+			// same base name in the sub-folders below are then the only ones so called - and still not the table
+			continue
+		}
 		members = append(members, rawMember{t.File, renderCSV(t, p)})
 	}
 	if p.ExtraFile {
@@ -261,6 +267,7 @@ func renderFeed(m *feedModel, p presentation) []byte {
 			rawMember{"backup/", nil},
 			rawMember{"backup/stops.txt", []byte("stop_id,stop_name\nOLD1,old stop\nOLD2,older stop\n")},
 			rawMember{"backup/shapes.txt", []byte("shape_id,shape_pt_lat,shape_pt_lon,shape_pt_sequence\nOLDSHAPE,1,2,3\n")},
+			rawMember{"drafts/calendar_dates.txt", []byte("service_id,date,exception_type\nDRAFTSERVICE,20240102,1\n")},
 			rawMember{"old/agency.txt", []byte("agency_id,agency_name,agency_url,agency_timezone\nOLDA,old,http://old,Asia/Tokyo\n")},
 			rawMember{"Stops.TXT", []byte("stop_id\nUPPER\n")})
 	}
